@@ -110,6 +110,7 @@ func (g *G) afterMut() {
 func (g *G) dump() {
 	g.do("dump")
 	g.do("dumpindex")
+	g.do("dumpphys")
 	g.do("checkinv", "checkinv ok")
 }
 
